@@ -155,14 +155,27 @@ func alphabet() []token {
 // the implementation state and need not be part of the state key.
 
 type model struct {
-	H         uint64
-	Hashes    map[string]bool  // evidence hashes committed
-	Classes   map[string][]int // double-signing -> items committed for it
-	Committed []int
+	H       uint64
+	Hashes  map[string]bool  // evidence hashes committed
+	Classes map[string][]int // double-signing -> items committed for it
+	// Owed: evidence consensus handed over that is not pending yet. The property does not say WHEN it has
+	// to become pending; the weakest reading is "with the next committed block" (a pool may keep it
+	// aside until the block of its height gives it a time). A restart drops the obligation (the real
+	// node would see the conflicting votes again when it replays its WAL).
+	Owed map[int]bool
 }
 
 func newModel() *model {
-	return &model{H: baseHeadB, Hashes: map[string]bool{}, Classes: map[string][]int{}}
+	return &model{H: baseHeadB, Hashes: map[string]bool{}, Classes: map[string][]int{}, Owed: map[int]bool{}}
+}
+
+func (m *model) owedString() string {
+	var ns []string
+	for i := range m.Owed {
+		ns = append(ns, items[i].Name)
+	}
+	sort.Strings(ns)
+	return strings.Join(ns, ",")
 }
 
 func normHash(h string) string { return strings.ToUpper(strings.TrimPrefix(h, "0x")) }
@@ -211,7 +224,10 @@ func variantOf(is []int) string {
 }
 
 func (m *model) clone() *model {
-	c := &model{H: m.H, Hashes: map[string]bool{}, Classes: map[string][]int{}}
+	c := &model{H: m.H, Hashes: map[string]bool{}, Classes: map[string][]int{}, Owed: map[int]bool{}}
+	for k, v := range m.Owed {
+		c.Owed[k] = v
+	}
 	for k, v := range m.Hashes {
 		c.Hashes[k] = v
 	}
@@ -300,7 +316,7 @@ func (l *live) key() string {
 	for _, h := range committedHashes(l.d.pool) {
 		cs = append(cs, itemName(h))
 	}
-	return fmt.Sprintf("H%d|P%v%v|C%v|S%d|ph%d|pt%d|sh%d", l.d.state.LastBlockHeight, pn, unk, cs, v.Size, v.PruningHeight, v.PruningTime.UnixNano(), v.StateHeight)
+	return fmt.Sprintf("H%d|P%v%v|C%v|S%d|ph%d|pt%d|sh%d|O[%s]", l.d.state.LastBlockHeight, pn, unk, cs, v.Size, v.PruningHeight, v.PruningTime.UnixNano(), v.StateHeight, l.m.owedString())
 }
 
 // enabled: AddEvidenceFromConsensus is only called by a consensus that is working on height H+1, with
@@ -360,11 +376,14 @@ func (l *live) apply(tok token, hist []string, judge bool) (panicked string) {
 		}
 		_, after, _ := pendingItems(d.pool)
 		if executed && !after[i] && !before[i] && ok && it.Plain {
-			o := "valid-rejected"
 			if tok.Kind == "cons" {
-				o = "consensus-evidence-not-kept"
+				m.Owed[i] = true // judged when the next block is committed
+			} else {
+				report("valid-rejected", it.Name, fmt.Sprintf("%s: reference-valid, uncommitted evidence is not pending afterwards (err=%v)", tok, err))
 			}
-			report(o, it.Name, fmt.Sprintf("%s: reference-valid, uncommitted evidence is not pending afterwards (err=%v)", tok, err))
+		}
+		if after[i] {
+			delete(m.Owed, i)
 		}
 		for j := range after {
 			if !before[j] {
@@ -436,8 +455,16 @@ func (l *live) apply(tok token, hist []string, judge bool) (panicked string) {
 		if !fx.blockTime[m.H].Equal(b.Time()) {
 			panic(fmt.Sprintf("harness: block %d has time %v, the fixture schedule says %v", m.H, b.Time(), fx.blockTime[m.H]))
 		}
+		_, nowPending, _ := pendingItems(d.pool)
+		for i := range m.Owed {
+			if !nowPending[i] && !committedNow[i] && !m.expired(i) && len(m.Classes[items[i].Class]) == 0 {
+				report("consensus-evidence-not-kept", "consensus", fmt.Sprintf("%s was handed over by consensus and is still not pending after block %d was committed", items[i].Name, m.H))
+			}
+			delete(m.Owed, i)
+		}
 	case "restart":
 		cb := committedHashes(d.pool)
+		m.Owed = map[int]bool{}
 		if err := d.attach(); err != nil {
 			report("restart-fails", "restart", "evidence.NewPool on the same databases fails: "+err.Error())
 			return
